@@ -960,6 +960,8 @@ class Engine:
                         return a / b
                     if isinstance(e.op, ast.Pow):
                         return a ** b
+                if isinstance(e.op, ast.Div) and self.unknown_ok:
+                    return UNK      # a float: outside the integer model (only ever formatted into messages here)
                 raise Refuse('operator ' + type(e.op).__name__)
             return self.binop(op, self.ev(e.left), self.ev(e.right), e)
         if isinstance(e, ast.UnaryOp):
